@@ -139,6 +139,27 @@ def h_formula_messages(E, length):
     return out
 
 
+def h_string_alt_sequences(E, length):
+    """one StringGrader with a zero-credit alternative whose own message is SHORTER than the grader's wrong_msg: in every sequence of calls (and for every
+    item of one ListGrader call through the same grader object) a submission matching that alternative shows its message, a non-matching one wrong_msg"""
+    from mitxgraders import StringGrader, ListGrader
+    g = StringGrader(answers=({'expect': 'cat', 'msg': 'yes'}, {'expect': 'dog', 'grade_decimal': 0, 'msg': 'm'}, {'expect': 'cow', 'grade_decimal': 0.5, 'msg': 'half'}),
+                     wrong_msg='a much longer generic message')
+    want = {'cat': (1, 'yes'), 'dog': (0, 'm'), 'cow': (0.5, 'half'), 'eel': (0, 'a much longer generic message'), '': (0, 'a much longer generic message')}
+    keys = sorted(want)
+    seq = [E.choice('call%d' % k, keys) for k in range(length)]
+    for inp in seq:
+        r = g(None, inp)
+        E.check('grade-is-maximum', r['grade_decimal'] == want[inp][0])
+        E.check('message-depends-on-this-call-only', r['msg'] == want[inp][1])
+    lg = ListGrader(answers=[({'expect': 'cat', 'msg': 'yes'}, {'expect': 'dog', 'grade_decimal': 0, 'msg': 'm'})] * length, subgraders=g, ordered=True)
+    r = lg(None, list(seq))
+    for inp, ent in zip(seq, r['input_list']):
+        w = {'cat': (1, 'yes'), 'dog': (0, 'm')}.get(inp, (0, 'a much longer generic message'))
+        E.check('message-depends-on-this-call-only', (ent['grade_decimal'], ent['msg']) == w)
+    return seq
+
+
 def h_matrix_messages(E, length):
     """MatrixGraders with suppressed shape messages, called one after the other: what is shown depends on this call only (wrong_msg exactly when the best
     grade is 0 and no specific message applies; a matched zero-credit alternative keeps its own message; a grader without wrong_msg shows none)"""
@@ -189,6 +210,7 @@ def harnesses(tier):
     for a in names:
         for b in names:
             hs.append(Harness(pname('string_messages', first=a, then=b), c18.h_refusal_sequence, ((a, b), 2), FUNCS, 'two StringGrader calls, strings of length <= 2: wrong_msg and refusal texts of one grader never show in another', STUBS))
+    add(h_string_alt_sequences, 'string_alt_sequences', dict(length=3), 'all sequences of 3 calls over 5 inputs on one grader, then the same inputs as one list call', validate=False)
     add(h_matrix_messages, 'matrix_messages', dict(length=2), 'all sequences of 2 calls over 3 MatrixGraders x 4 inputs (shape mismatches suppressed)', validate=False)
     add(h_alts, 'alts', dict(k=1, wrong=True, reorder=False, full=True), 'credits in [0,1]')
     for w in (True, False):
